@@ -497,7 +497,38 @@ func genBig(t *rapid.T) Msg {
 	return Msg{Type: gen.TypeVideo, Class: "big/video", Incons: incons, Raw: raw, TailSeed: rapid.Uint32().Draw(t, "bigSeed"), TailLen: n}
 }
 
+// genRtpEdge: messages the remuxers accept, whose NAL units / audio frames are 1..3 bytes long and start with a byte
+// that has a packetisation meaning on the RTP side (STAP-A / FU-A / AP / FU type codes).
+func genRtpEdge(t *rapid.T) Msg {
+	n := rapid.IntRange(1, 3).Draw(t, "edgeLen")
+	rest := drawBytes(t, n-1, n-1, "edgeRest")
+	switch rapid.IntRange(0, 3).Draw(t, "edgeKind") {
+	case 0, 1:
+		typ := rapid.SampledFrom([]byte{24, 24, 28, 28, 25, 26, 27, 29}).Draw(t, "edgeAvcType")
+		nal := append([]byte{0x60 | typ}, rest...)
+		hdr := rapid.SampledFrom([][]byte{{0x27, 1, 0, 0, 0}, {0x17, 1, 0, 0, 0}}).Draw(t, "edgeAvcHdr")
+		return Msg{Type: gen.TypeVideo, Class: "rtp-edge/avc", Raw: append(append(append([]byte(nil), hdr...), be32(uint32(len(nal)))...), nal...)}
+	case 2:
+		typ := rapid.SampledFrom([]byte{49, 49, 48, 50}).Draw(t, "edgeHevcType")
+		nal := append([]byte{typ << 1}, rest...)
+		hdr := rapid.SampledFrom([][]byte{{0x2c, 1, 0, 0, 0}, {0x1c, 1, 0, 0, 0}, {0xa3, 'h', 'v', 'c', '1'}, {0xa1, 'h', 'v', 'c', '1', 0, 0, 0}}).Draw(t, "edgeHevcHdr")
+		return Msg{Type: gen.TypeVideo, Class: "rtp-edge/hevc", Raw: append(append(append([]byte(nil), hdr...), be32(uint32(len(nal)))...), nal...)}
+	default:
+		first := rapid.SampledFrom([]byte{0x78, 0x98, 0x7c, 0x9c, 0x62, 0x60, 0x18, 0x1c}).Draw(t, "edgeAudioFirst")
+		sf := rapid.SampledFrom([]byte{0x72, 0x82, 0xdf}).Draw(t, "edgeSoundFormat")
+		b := []byte{sf}
+		if sf == 0xdf && rapid.Bool().Draw(t, "edgeOpusPt") {
+			b = append(b, 1)
+		}
+		b = append(b, first)
+		return Msg{Type: gen.TypeAudio, Class: "rtp-edge/audio", Raw: append(b, rest...)}
+	}
+}
+
 func genHostile(t *rapid.T, cd gen.Codecs, skel []gen.Item) Msg {
+	if rapid.IntRange(0, 11).Draw(t, "rtpEdge") == 0 {
+		return genRtpEdge(t)
+	}
 	switch rapid.IntRange(0, 39).Draw(t, "hostileClass") {
 	case 0, 1, 2, 3, 4, 5, 6, 7, 8, 9:
 		return genTiny(t)
